@@ -6,6 +6,9 @@ import Hive.Spec.Serix
 Requests of one case (the case header resets the schema):
 
 * `type …`            → `ok` (selects the Go universe on the harness side; the schema follows in `def`)
+* `som set|del|clear …` → `ok` (history of the Go-side `SerializableOrderedMap`; the following `enc` carries
+                         the entries of the harness's reference list, which the model encodes as a
+                         uint32-counted sequence of (key, value) structs)
 * `def SCHEMA`        → `ok wf` | `ok nowf` | `bad-schema`
 * `enc v|n VALUE`     → `ok HEX` | `err` | `panic`      (`v`: with validation)
 * `dec v|n HEX`       → `ok VALUE N` | `err` | `panic`
@@ -189,6 +192,7 @@ def showRes {α : Type} (f : α → String) : Res α → String
 def stepLine (s : Option Ty) (toks : List String) : Option Ty × String :=
   match toks with
   | "type" :: _ => (none, "ok")   -- selects the Go universe; the schema follows in `def`
+  | "som" :: _ => (s, "ok")       -- Set/Delete/Clear on the harness's SerializableOrderedMap (no model state)
   | "def" :: rest =>
     match (parseSExp (tokenize (" ".intercalate rest))).bind parseTy with
     | some t => (some t, if t.wf then "ok wf" else "ok nowf")
